@@ -340,6 +340,54 @@ func c01NullGuard(c *Ctx, a *avlAnchors) {
 			}
 		}
 	}
+	// nil-safe methods: every dereference of the receiver happens after the method itself has tested it non-nil;
+	// calling such a method on an untested pointer is fine
+	nilSafe := map[string]bool{}
+	for _, fi := range c.P.FuncsOfPkg("avl") {
+		sig := fi.Obj.Type().(*types.Signature)
+		if sig.Recv() == nil || !isNodePtrType(a, sig.Recv().Type()) {
+			continue
+		}
+		fp := c.An.PathsOf(fi.SSA)
+		if fp.Unproven != "" {
+			continue
+		}
+		safe, tested := true, false
+		for _, p := range fp.Paths {
+			guardAt := -1
+			for i, cd := range p.Conds {
+				r := cd.Rel()
+				if r.B != nil && r.B.IsNil() && isParam(r.A, 0) {
+					tested = true
+					if r.Op == "!=" && guardAt < 0 {
+						guardAt = i
+					}
+				}
+			}
+			touches := func(t *Term, ncond int) {
+				if t != nil && t.Op == "faddr" && isParam(t.Args[0], 0) && (guardAt < 0 || ncond <= guardAt) {
+					safe = false
+				}
+			}
+			for i := range p.Events {
+				e := &p.Events[i]
+				if e.Kind == "store" {
+					touches(e.Addr, e.NCond)
+				}
+				if e.Kind == "call" && len(e.Args) > 0 && isParam(e.Args[0], 0) && strings.Contains(e.Name, "(*node).") && e.Name != fi.Name && (guardAt < 0 || e.NCond <= guardAt) {
+					safe = false
+				}
+			}
+			for _, ac := range p.Acc {
+				if ac.Kind == "load" {
+					touches(ac.Addr, ac.NCond)
+				}
+			}
+		}
+		if safe && tested {
+			nilSafe[fi.Name] = true
+		}
+	}
 	for _, fi := range c.P.FuncsOfPkg("avl") {
 		// inside a rotation the child being promoted exists by precondition; everything deeper needs its own test
 		recvChildOK := cons[fi.Name] != nil && !calledFromOutside[fi.Name]
@@ -430,7 +478,7 @@ func c01NullGuard(c *Ctx, a *avlAnchors) {
 				e := &p.Events[i]
 				switch e.Kind {
 				case "call", "defer", "go":
-					if (strings.Contains(e.Name, "(*node).") || strings.Contains(e.Name, "(*Tree).")) && len(e.Args) > 0 {
+					if (strings.Contains(e.Name, "(*node).") || strings.Contains(e.Name, "(*Tree).")) && len(e.Args) > 0 && !nilSafe[e.Name] {
 						check(e.Args[0], e.NCond, "the call of "+e.Name)
 					}
 				case "store":
